@@ -75,11 +75,11 @@ def _mk():
         f=lambda z: 1 / (1 + np.exp(-z)))
     # Faa di Bruno family: derivative leaves from SciPy directly (independent of algopy.nthderiv)
     add('gammaln', lambda x, c: algopy.special.gammaln(x), 'slowgeneric',
-        lambda x0, c: [sp.gammaln(x0)] + [_pg(n - 1, x0) for n in range(1, c['D'])], dom='gam', f=sp.loggamma)
+        lambda x0, c: [sp.gammaln(x0)] + [_pg(n - 1, x0) for n in range(1, c['D'])], dom='gamneg', f=sp.loggamma)
     add('psi', lambda x, c: algopy.special.psi(x), 'slowgeneric',
-        lambda x0, c: [_pg(n, x0) for n in range(c['D'])], dom='gam', f=sp.psi)
+        lambda x0, c: [_pg(n, x0) for n in range(c['D'])], dom='gamneg', f=sp.psi)
     add('polygamma', lambda x, c: algopy.special.polygamma(int(c['m']), x), 'slowgeneric',
-        lambda x0, c: [_pg(int(c['m']) + n, x0) for n in range(c['D'])], dom='gam',
+        lambda x0, c: [_pg(int(c['m']) + n, x0) for n in range(c['D'])], dom='gamneg',
         prm=lambda rng: {'m': rng.choice([0, 1, 2, 3])}, f=None)
     add('hyperu', lambda x, c: algopy.special.hyperu(c['a'], c['b'], x), 'slowgeneric',
         lambda x0, c: [((-1) ** n) * poch(c['a'], n) * sp.hyperu(c['a'] + n, c['b'] + n, x0) for n in range(c['D'])],
@@ -114,8 +114,11 @@ def gen_x0(rng, dom, shape, cplx):
             v = dyadic(rng, -0.8, 0.8)
         elif dom == '01':
             v = dyadic(rng, 0.15, 0.85)
-        elif dom == 'gam':
+        elif dom in ('gam', 'gamneg'):
             v = dyadic(rng, 0.75, 4.0)
+            if dom == 'gamneg' and not cplx and rng.random() < 0.25:
+                # negative non-integer points: log|Gamma|, psi, polygamma are analytic between the poles
+                v = -rng.randint(0, 2) - rng.choice([0.25, 0.375, 0.5, 0.625, 0.75])
         elif dom == 'clip':
             v = rng.choice([dyadic(rng, -2, -0.625), dyadic(rng, -0.375, 0.625), dyadic(rng, 0.875, 2)])
         else:
@@ -201,8 +204,9 @@ def sing_dist(name, dom, x0):
         return np.min(1 - a)
     if dom == '01':
         return np.min(np.minimum(x0, 1 - x0))
-    if dom == 'gam':
-        return np.min(x0)
+    if dom in ('gam', 'gamneg'):
+        # poles at 0, -1, -2, ...
+        return np.min(np.where(x0 > 0, x0, np.minimum(x0 - np.floor(x0), np.ceil(x0) - x0)))
     if name in ('arctan', 'tanh', 'expit'):
         return 1.0
     return 10.0
@@ -231,7 +235,11 @@ def cauchy_oracle(case):
     for d in range(D):
         xt = xt + x[d][None] * (t ** d).reshape((N,) + (1,) * (x.ndim - 1))
     with np.errstate(all='ignore'):
-        ft = f(xt)
+        if case['fn'] == 'gammaln' and not np.iscomplexobj(x):
+            # log|Gamma| continued analytically off the real axis (loggamma has its branch cut on the negative axis)
+            ft = np.log(sp.gamma(xt) * np.sign(sp.gamma(x[0]))[None])
+        else:
+            ft = f(xt)
     if not np.all(np.isfinite(ft)):
         return None
     c = np.fft.fft(ft, axis=0) / N
